@@ -73,8 +73,10 @@ class Soap12(Soap11):
         return value, faultstrings
 
     def generate_faultcode(self, element):
-        nsmap = element.nsmap
+        # whatever prefix the sender chose for the envelope namespace
+        nsmap = {'soap': self.ns_soap_env}
         faultcode = []
+
         faultcode.append(element.find('soap:Code/soap:Value', namespaces=nsmap).text)
         subcode = element.find('soap:Code/soap:Subcode', namespaces=nsmap)
         while subcode is not None:
@@ -144,17 +146,18 @@ class Soap12(Soap11):
         return self._fault_to_parent_impl(ctx, cls, inst, parent, ns, subelts)
 
     def fault_from_element(self, ctx, cls, element):
-        nsmap = element.nsmap
+        nsmap = {'soap': self.ns_soap_env}
 
         code = self.generate_faultcode(element)
-        reason = element.find("soap:Reason/soap:Text", namespaces=nsmap).text.strip()
+        reason = element.find("soap:Reason/soap:Text", namespaces=nsmap).text
+        reason = '' if reason is None else reason.strip()
         role = element.find("soap:Role", namespaces=nsmap)
         node = element.find("soap:Node", namespaces=nsmap)
         detail = element.find("soap:Detail", namespaces=nsmap)
         faultactor = ''
-        if role is not None:
+        if role is not None and role.text is not None:
             faultactor += role.text.strip()
-        if node is not None:
+        if node is not None and node.text is not None:
             faultactor += node.text.strip()
         return cls(faultcode=code, faultstring=reason,
                    faultactor=faultactor, detail=detail)
